@@ -37,7 +37,7 @@ ASSUMPTIONS = [
 
 CORPUS_DIR = os.path.join(VERIF, "corpus", "wire")
 FORMATS = [">hhih", ">qi", ">BB", ">I", ">BBq", ">IBB", ">q", ">ihi", ">hhh", ">i", ">hii", ">ii", ">ihq", ">ihqq", ">iiii", ">iqi",
-           ">iii", ">h", ">hiii", ">ih", ">iq", ">iqq", ">hi", ">b", ">H", ">Q", ">bB", "<i", "i", ">x", ">3i", ">", ""]
+           ">iii", ">h", ">hiii", ">ih", ">iq", ">iqq", ">hi", ">b", ">H", ">Q", ">bB", ">"]
 
 
 # --------------------------------------------------------------------------- scenario construction
@@ -230,8 +230,10 @@ def req_scenarios(rng, n, big):
     apis = list(Q.GENERATORS)
     for i in range(n):
         api = apis[i % len(apis)] if i < 3 * len(apis) else rng.choice(apis + ["produce", "produce", "fetch"])
+        W.PBAD[0] = 0.0 if rng.random() < 0.6 else 0.04  # most scenarios entirely in range
         args = Q.GENERATORS[api](rng, big) if api == "produce" else Q.GENERATORS[api](rng)
         out.append({"op": "enc", "api": api, "now": rng.choice(W.NOW_CHOICES), "args": " ".join(vr(a) for a in args)})
+    W.PBAD[0] = 0.04
     return out
 
 
@@ -344,13 +346,20 @@ def run_version(sc, sink, res=None):
     from harness.sim.world import World
 
     w = World()
-    st = {"apiv": 0, "frames": []}
+    st = {"apiv": 0, "frames": [], "bad": []}
     topic = "vt"
     nparts = sc["nparts"]
     key = 0 if sc["api"] == "produce" else 1
     apiv_body = {"error_code": sc["error"], "api_versions": [] if sc["kind"] == "error" else [{"api_key": k, "min_version": lo, "max_version": hi} for k, lo, hi in sc["table"]]}
 
     def on_frame(conn, frame):
+        # a broker that cannot parse a request does not answer it; the frame is judged below
+        try:
+            answer(conn, frame)
+        except (RC.CodecError, KeyError, ValueError, IndexError) as e:
+            st["bad"].append((frame, "%s: %s" % (type(e).__name__, e)))
+
+    def answer(conn, frame):
         k, ver, corr, _cid = RC.request_header(frame)
         st["frames"].append((k, ver, frame))
         if k == RC.API_VERSIONS:
@@ -423,6 +432,8 @@ def run_version(sc, sink, res=None):
             sink.mon("mon-fallback %s %s" % (vr(ver), vr(magics)), sc, ["c04-fallback-not-zero:" + sc["kind"] + ":" + sc["api"]])
         else:
             sink.mon("mon-version %s %s %s" % (vr(sc["table"]), vr(key), vr(ver)), sc, ["c04-version-not-advertised"])
+    for frame, why in st["bad"]:
+        sink.mon("broker-cannot-parse %s %s" % (why, frame.hex()[:200]), sc, ["c04-version-frame-nonconforming"])
     if len(sent) != len(outcomes):
         sink.mon("frames sent %d for %d calls" % (len(sent), len(outcomes)), sc, ["c04-version-no-frame"])
     # the reply was decoded by the decoder of the version that was sent
@@ -528,10 +539,16 @@ def run_scenarios(ctx, res, scenarios, chunk=400):
         sink = Sink()
         part = scenarios[i:i + chunk]
         for sc in part:
-            if sc["op"] in ("enc", "version"):
-                RUNNERS[sc["op"]](sc, sink, res)
-            else:
-                RUNNERS[sc["op"]](sc, sink)
+            try:
+                if sc["op"] in ("enc", "version"):
+                    RUNNERS[sc["op"]](sc, sink, res)
+                else:
+                    RUNNERS[sc["op"]](sc, sink)
+            except Exception as e:  # noqa: BLE001 - the scenario ran on the unchanged tree: the code no longer behaves as modelled
+                import traceback
+
+                res.disagreements.append({"component": "wire", "scenario": clean(sc), "impl": "exception while driving the real code: %s: %s" % (type(e).__name__, e),
+                                          "model": "(the scenario runs to completion on the unchanged tree)", "trace": traceback.format_exc()[-800:]})
             res.evaluations += 1
             res.count("op:" + sc["op"])
             if nontrivial(sc):
